@@ -79,5 +79,7 @@ def run(ctx):
     return verif.finish(ctx, "exploration", cov,
                         ["Fn_StreamPack.tla is the oracle: at most once, only requested blobs, correct plaintext or error, fallback to another copy, abort on callback error, exactly once on success or whenever a fallback loader exists; TLC evaluates RecOK on every recorded call",
                          "how the request is split into downloads is taken from the record (not specified); requests contain each blob once and no overlapping blobs",
-                         "direct scenarios inject the download function and the fallback loader of the real streamPack; repo scenarios use the real LoadBlob on a store with persistent faults (byte flip, pack unreadable from the k-th download on)",
+                         "direct scenarios inject the download function and the fallback loader of the real streamPack; repo scenarios use the real LoadBlob on a store with persistent faults (byte flip in chosen stored copies, streamed pack unreadable from the k-th download on, other packs unreadable)",
+                         "repo scenarios: repositories written in 1..3 upload sessions (same or reopened Repository, compression off/auto/fastest/max, 1 or 2 packers, every blob saved 0..2 times per session with storeDuplicate), so a blob may be stored several times in one pack and with different stored lengths in several packs; which stored copy is streamed is not specified: an error callback is rejected only when a usable copy exists whichever copy was streamed (undamaged copy in a readable other pack; undamaged copy in the streamed pack when that pack stays readable; no download covering a copy of the blob failed)",
+                         "flip and unreadable are never combined on the streamed pack; the blobs of one repository are pairwise different; the order of the copies in the index (Lookup order) is whatever the real index yields (varied by reopening), so repo scenarios are not bit-reproducible per seed",
                          "seeded sampling of subsets/faults per layout, fixed layouts for the 1 MiB gap and 32 MiB range boundaries"])
